@@ -11,9 +11,12 @@
 (* order: TLC refutes CurIsSolution for it (MC_RewardGraphDeclOrder.cfg) -   *)
 (* a documented counterexample used as a non-vacuity test of the step        *)
 (* clauses, not a model of the code.                                         *)
+(* Gen_RewardGraph*.cfg (AcyclicOnly) are the generator configurations used  *)
+(* with `tlc -simulate': behaviours = (declaration order, acyclic graph,     *)
+(* sequence of own-reward vectors) that the harness replays on real agents.  *)
 EXTENDS RewardGraph, TLC
 
-CONSTANTS N, AllNord, OwnNeg, OwnPos, MaxSteps, Variant
+CONSTANTS N, AllNord, OwnNeg, OwnPos, MaxSteps, Variant, AcyclicOnly
 
 OwnVals == (0 - OwnNeg)..OwnPos   \* the cfg syntax has no negative literals
 
@@ -28,6 +31,7 @@ W(e) == 1 + ((e[1] + e[2]) % 2)     \* weights 1 and 2
 
 Init ==
     \E d \in Perms, gg \in SUBSET (V \X V), no \in (IF AllNord THEN Perms ELSE {Ident}) :
+        /\ (AcyclicOnly => ~HasCycleDecl(V, gg))   \* generator cfgs (Gen_*.cfg) only
         /\ RInit(d, gg, [e \in gg |-> W(e)])
         /\ nord = no
 
@@ -56,6 +60,7 @@ MCView == IF n = 0 THEN <<mcvars>> ELSE <<g, wt, order, own, cur, tot, sum, n>>
 ConfigFrozen == [][phase # "new" => UNCHANGED <<decl, g, wt, accepted, order, nord>>]_mcvars
 MC_LoadIffAcyclic == n = 0 => LoadIffAcyclic
 MC_OrderDepsFirst == n = 0 => OrderDepsFirst
+MC_TCAgrees == phase = "new" => (HasCycleTC(V, g) <=> HasCycleDecl(V, g))
 \* the order is computed once, from the configuration only
 MC_OrderIsEvalOrder == (n = 0 /\ phase = "run") => order = EvalOrderN(decl, nord, g)
 =============================================================================
